@@ -13,7 +13,7 @@ def run(tier, rep):
     with workdir("C03ss") as wd:
         ss = render.exec_specs(wd, rep, 300 if tier == "quick" else 3000, seed(), want="occupancy")[: (40 if tier == "quick" else 600)]
     q = tier == "quick"
-    specs = families.accel_specs(stripped=True) + families.occ_core() + families.flat_split_core() + sample(families.gen_occ, rng, 40 if q else 400) + sample(families.gen_flat, rng, 30 if q else 300) + sample(families.gen_flat3, rng, 8 if q else 60) + ss
+    specs = families.accel_specs(stripped=True) + families.occ_core() + families.flat_split_core() + families.occ_flat_core() + sample(families.gen_occ, rng, 40 if q else 400) + sample(families.gen_flat, rng, 30 if q else 300) + sample(families.gen_flat3, rng, 8 if q else 60) + ss
     run_exec("C03", tier, rep, specs, ("Err:", "OutputCorrect", "OutputRestored"), cap_q=36, cap_t=250, rng=rng, dense_bias=True,
              rule="sigma/extensor/outerspace/gamma/demo with architecture stripped and sizes scaled + seeded product Einsums x leader x occupancy stacks (1-2 levels, alone or beneath a shape split) "
                   "+ flatten tuples (optionally of a shape-split level) with occupancy of the flattened rank, loop orders keeping each rank's levels outermost-to-innermost; inputs include nearly dense tensors")
